@@ -344,6 +344,13 @@ func (x *Unit) readPath(st *State, v Val, path []int) Val {
 		x.u.DeclFun("chantype", "(Int) Int")
 		x.fact(Or(Eq(r.T, IntLit(0)), Eq(App(SInt, "chantype", r.T), IntLit(int64(x.u.TypeID(ct.Elem()))))))
 	}
+	// references stored in a state were allocated by the time of that state
+	if x.binders == 0 && r.Sort == SInt {
+		switch under(r.Typ).(type) {
+		case *types.Pointer, *types.Map, *types.Chan:
+			x.fact(And(Cmp(">=", r.T, IntLit(0)), Cmp("<=", x.proot(r.T), st.alloc)))
+		}
+	}
 	return r
 }
 
@@ -599,7 +606,12 @@ func (x *Unit) spCall(st *State, e *ast.CallExpr, c *specCtx) Val {
 			if v, ok := x.witMemo[k]; ok {
 				return v
 			}
-			v := Val{x.fresh("witness", x.witnessSort(c)), x.witnessTyp}
+			var v Val
+			if rt := x.calleeResultType(e.Args[0], idx, c); rt != nil {
+				v = Val{x.fresh("witness", x.u.SortOf(rt)), rt}
+			} else {
+				v = Val{x.fresh("witness", x.witnessSort(c)), x.witnessTyp}
+			}
 			x.witMemo[k] = v
 			return v
 		}
@@ -616,6 +628,14 @@ func (x *Unit) spCall(st *State, e *ast.CallExpr, c *specCtx) Val {
 		}
 		x.specErr(e, "no contract let %s recorded", k)
 		return Val{x.fresh("bad", SInt), nil}
+	case "pooltype":
+		// pooltype(pool, T): every element of the sync.Pool has dynamic type T
+		t := x.resolveType(e.Args[1], c.pkg)
+		if t == nil {
+			x.specErr(e, "cannot resolve type")
+			return Val{True, boolT}
+		}
+		return Val{Eq(x.uf("pooltype", SInt, arg(0).T), IntLit(int64(x.u.TypeID(t)))), boolT}
 	case "once":
 		lv := x.specLV(st, e.Args[0], c)
 		if lv == nil {
@@ -973,4 +993,29 @@ func isResultOf(e ast.Expr) bool {
 	}
 	id, ok := c.Fun.(*ast.Ident)
 	return ok && id.Name == "result_of"
+}
+
+// calleeResultType resolves the type of result idx of a callee named by text (package-level or qualified functions).
+func (x *Unit) calleeResultType(e ast.Expr, idx int, c *specCtx) types.Type {
+	var fn *types.Func
+	switch f := e.(type) {
+	case *ast.Ident:
+		if c.pkg != nil {
+			fn, _ = c.pkg.Scope().Lookup(f.Name).(*types.Func)
+		}
+	case *ast.SelectorExpr:
+		if id, ok := f.X.(*ast.Ident); ok {
+			if p := findImport(c.pkg, id.Name); p != nil {
+				fn, _ = p.Scope().Lookup(f.Sel.Name).(*types.Func)
+			}
+		}
+	}
+	if fn == nil {
+		return nil
+	}
+	sig := fn.Type().(*types.Signature)
+	if idx < sig.Results().Len() {
+		return sig.Results().At(idx).Type()
+	}
+	return nil
 }
